@@ -69,7 +69,7 @@ def make_array(i, dtype, layout):
 
 
 VARIANTS = ["res_list_negative_y", "res_ndarray", "no_attrs", "coords_of_other_rasters_off_by_1ulp",
-            "coords_of_other_rasters_float32_rounded", "extra_2d_coordinate"]
+            "coords_of_other_rasters_float32_rounded", "extra_2d_coordinate", "nan_cells", "single_chunk", "one_cell_chunks"]
 
 
 def make_rasters(nr, dtype, layout, backend, variant=None):
@@ -92,6 +92,17 @@ def make_rasters(nr, dtype, layout, backend, variant=None):
                 rs[i] = r.assign_coords(y=(ys + 1e-7).astype(np.float32).astype(np.float64), x=(xs + 1e-7).astype(np.float32).astype(np.float64))
             elif variant == "extra_2d_coordinate":
                 rs[i] = r.assign_coords(lon2d=(("y", "x"), np.add.outer(ys, xs)))
+            elif variant in ("nan_cells", "single_chunk", "one_cell_chunks"):
+                a = make_array(i, dtype, layout).astype(np.float64)
+                if variant == "nan_cells":
+                    a[0, 0] = np.nan
+                    a[2, 3] = np.nan
+                data = a
+                if backend == "dask":
+                    import dask.array as da
+                    chunks = {"nan_cells": ((2, 2), (3, 2)), "single_chunk": ((H,), (W,)), "one_cell_chunks": ((1,) * H, (1,) * W)}[variant]
+                    data = da.from_array(a, chunks=chunks)
+                rs[i] = r.copy(data=data)
         return rs
     for i in range(nr):
         a = make_array(i, dtype, layout)
@@ -422,6 +433,9 @@ class VariantSpace(_Base):
             if variant.startswith("coords_of_other") and fn.nr < 2:
                 out.case(outcome=None, nontrivial=False, calls=0)
                 continue
+            if variant in ("single_chunk", "one_cell_chunks") and backend != "dask":
+                out.case(outcome=None, nontrivial=False, calls=0)
+                continue
             rasters = make_rasters(fn.nr, "float64", "C", backend, variant)
             bases = [r.data if backend == "numpy" else None for r in rasters]
             status, problems, mat = observe(fn, rasters, bases)
@@ -513,7 +527,8 @@ def build(tier):
     gs = [n for n in names if n not in ("generate_terrain",)] if tier == "thorough" else [n for n in names if n not in heavy]
     sp = [SingleCallSpace(tier, light, "light"), SingleCallSpace(tier, heavy[:3], "proximity_family", weight=30.0),
           SingleCallSpace(tier, heavy[3:], "viewshed_terrain", weight=40.0),
-          VariantSpace(tier, [n for n in names if n != "generate_terrain"] if tier == "thorough" else light),
+          VariantSpace(tier, [n for n in names if n != "generate_terrain"] if tier == "thorough"
+                       else light + ["viewshed", "proximity"]),
           ChainSpace(tier, raster_out, gs, ["numpy"] if tier == "quick" else ["numpy", "dask"],
                      ["float64"] if tier == "quick" else ["float64", "float32", "int32"])]
     sp[1].grain = 8
